@@ -47,6 +47,8 @@ Pairs == << [o |-> "BOS", d |-> "JFK", gc |-> 300], [o |-> "JFK", d |-> "LAX", g
             [o |-> "PHX", d |-> "DEN", gc |-> 968], [o |-> "CDG", d |-> "JFK", gc |-> 5849],
             [o |-> "NRA", d |-> "MID", gc |-> 2800] >>
 
+\* RowsAreValues: a row is a value - Instances(r) is a function of the row and the data year; importing a row does not
+\* change it (an open end stays open, it means the start / end of whatever year the row is imported into)
 \* effective range: 400 encodes "open" (00000000 / 99999999 in the input)
 Open == 400
 From(r) == IF r.from = Open THEN 0 ELSE r.from
